@@ -8,10 +8,13 @@ package main
 //     using the public state and nonce), and a relation battery over many real draws.
 
 import (
+	crand "crypto/rand"
+	"errors"
 	"fmt"
 	"go/ast"
 	"go/parser"
 	"go/token"
+	"io"
 	mrand "math/rand"
 	"os"
 	"path/filepath"
@@ -301,6 +304,40 @@ func seedAttack(t0, t1 time.Time, sid, nonce, state string) (bool, int) {
 	return false, tried
 }
 
+// perValueSeedAttack: is the session id the output of a math/rand stream seeded with some instant of the window?
+func perValueSeedAttack(t0, t1 time.Time, sid string) (bool, int) {
+	const charset = "abcdefghijklmnopqrstuvwxyzABCDEFGHIJKLMNOPQRSTUVWXYZ0123456789"
+	tried := 0
+	for seed := t0.UnixNano() - 2000; seed <= t1.UnixNano()+2000 && tried < 5_000_000; seed++ {
+		tried++
+		r := mrand.New(mrand.NewSource(seed))
+		match := true
+		for i := 0; i < len(sid); i++ {
+			if charset[r.Intn(len(charset))] != sid[i] {
+				match = false
+				break
+			}
+		}
+		if match {
+			return true, tried
+		}
+	}
+	return false, tried
+}
+
+type failingReader struct {
+	left int
+	next io.Reader
+}
+
+func (f *failingReader) Read(p []byte) (int, error) {
+	if f.left > 0 {
+		f.left--
+		return 0, errors.New("entropy source unavailable")
+	}
+	return f.next.Read(p)
+}
+
 func runC06(c *Ctx) {
 	c.Sum.Rule = "(1) the entropy-source summary of every session generator constructed by non-test code, regenerated from the Go sources of the current tree (go/parser), checked in Coq against the obligation 'session id, nonce and state are fed by the CSPRNG only, from draws of their own'; " +
 		"(2) seed brute force over the measured time window of each of N real logins using only the public state and nonce; (3) relation battery over real draws: equality / containment between the outputs of one login and across logins, repeats, gross per-position bias; " +
@@ -347,6 +384,38 @@ func runC06(c *Ctx) {
 					Replay: map[string]any{"state": state, "nonce": nonce, "window_ns": []int64{t0.UnixNano(), t1.UnixNano()}, "recovered_session_id": sid, "seeds_tried": tried}})
 			}
 		}
+	}
+	// (2b) the same question when the entropy source fails: whatever the generator hands out then (instead of failing) is attacked too,
+	// with a fresh clock-seeded stream per value as the candidate model
+	orig := crand.Reader
+	for fails := 1; fails <= 4; fails++ {
+		func() {
+			crand.Reader = &failingReader{left: fails, next: orig}
+			defer func() { crand.Reader = orig }()
+			var sid, nonce, state string
+			t0 := time.Now()
+			panicked := func() (p bool) {
+				defer func() { p = recover() != nil }()
+				g := oidc.NewRandomGenerator()
+				sid, nonce, state = g.GenerateSessionID(), g.GenerateNonce(), g.GenerateState()
+				return false
+			}()
+			t1 := time.Now()
+			crand.Reader = orig
+			c.Sum.Evaluations++
+			if panicked || sid == "" {
+				c.Hist("entropy_failure", "generator refuses (panic)")
+				return
+			}
+			c.Hist("entropy_failure", "values handed out")
+			ok1, tried1 := seedAttack(t0, t1, sid, nonce, state)
+			ok2, tried2 := perValueSeedAttack(t0, t1, sid)
+			if ok1 || ok2 {
+				c.Sum.GoFindings = append(c.Sum.GoFindings, Finding{Signature: "C06/session-id-recovered-when-entropy-fails",
+					What: fmt.Sprintf("with the first %d reads of the entropy source failing, the generator handed out a session id that lies in the candidate list computed from the call's time window alone (%d candidates)", fails, tried1+tried2),
+					Replay: map[string]any{"failing_reads": fails, "state": state, "nonce": nonce, "window_ns": []int64{t0.UnixNano(), t1.UnixNano()}, "recovered_session_id": sid}})
+			}
+		}()
 	}
 	// (3) relation battery
 	seen := map[string]bool{}
